@@ -21,12 +21,25 @@ type pieceReader struct {
 	pieces [][]byte
 	next   int
 	failAt int
+	// withData: the failing Read hands out piece failAt TOGETHER with the error (n > 0 and a
+	// non-EOF error in one call, once; afterwards the reader reports io.EOF)
+	withData bool
+	failed   bool
 }
 
 var errSource = errors.New("source reader failed")
 
 func (r *pieceReader) Read(p []byte) (int, error) {
+	if r.failed {
+		return 0, io.EOF
+	}
 	if r.next == r.failAt {
+		if r.withData && r.next < len(r.pieces) {
+			r.failed = true
+			n := copy(p, r.pieces[r.next])
+			r.next++
+			return n, errSource
+		}
 		return 0, errSource
 	}
 	if r.next >= len(r.pieces) {
@@ -68,6 +81,7 @@ func VerifH10a() {
 	switch fault {
 	case 1:
 		src.failAt = nd.Choice("source-fails-before-piece", np+1)
+		src.withData = src.failAt < np && nd.Choice("error-delivered-with-the-piece", 2) == 1
 	case 2, 3:
 		if fault == 2 {
 			failRoot = roots[nd.Choice("failing-root", 2)]
